@@ -20,7 +20,11 @@
 (*   "un"   <<"un", op, X>>       unary "-" or "!"                          *)
 (*   "fn"   <<"fn", name, a1..an>> function call                            *)
 (*   literal kinds <<k, value>>:  ref int float str bool dur re star id     *)
-(* A token is a pair <<class, text>>; a literal token IS its leaf node.     *)
+(* A token is a pair <<class, text>>; a literal token IS its leaf node: the  *)
+(* VALUE of a string / reference / regex token (line ends, tabs, carriage    *)
+(* returns inside it included) and its KIND ('1m' is a string, 1m a duration) *)
+(* go through Parse, Format and the JSON form unchanged, byte for byte.       *)
+(* Line ends BETWEEN tokens are layout and belong to no token.               *)
 (*                                                                          *)
 (* Statement level is a skeleton only (see Statement skeleton below): the   *)
 (* oracle for statements is the round-trip law itself (TickExprTrace).      *)
